@@ -689,6 +689,8 @@ fn doc_alphabet() -> Vec<DEv> {
         DEv::close("q"),
         DEv::Text("t".into()),
         DEv::Comment("c".into()),
+        // duplicate attribute names (different case), the duplicates not adjacent
+        DEv::Open { name: "a".into(), attrs: AttrSet { raw: " id=1 k=v ID=2 K".into(), parsed: vec![] }, slash: false },
     ]
 }
 
